@@ -1,0 +1,81 @@
+//go:build verif
+
+package client
+
+import (
+	"sync/atomic"
+
+	"github.com/go-logr/logr"
+	"github.com/ovn-org/libovsdb/cache"
+)
+
+// Verification hooks (build tag "verif" only).
+
+var verifPauseFn atomic.Value // func(string)
+
+// VerifSetPause installs a callback invoked at named pause points.
+func VerifSetPause(f func(point string)) {
+	if f == nil {
+		f = func(string) {}
+	}
+	verifPauseFn.Store(f)
+}
+
+func verifPause(point string) {
+	if f, ok := verifPauseFn.Load().(func(string)); ok && f != nil {
+		f(point)
+	}
+}
+
+// VerifNewAPI returns the model API on top of an arbitrary cache.
+func VerifNewAPI(c *cache.TableCache) API {
+	l := logr.Discard()
+	return newAPI(c, &l)
+}
+
+// VerifLockProbe reports which of the client's locks cannot be acquired right
+// now. With no call in flight the result must be empty.
+func VerifLockProbe(c Client) []string {
+	o, ok := c.(*ovsdbClient)
+	if !ok {
+		return []string{"not an ovsdbClient"}
+	}
+	var held []string
+	if o.rpcMutex.TryLock() {
+		o.rpcMutex.Unlock()
+	} else {
+		held = append(held, "rpcMutex")
+	}
+	if o.shutdownMutex.TryLock() {
+		o.shutdownMutex.Unlock()
+	} else {
+		held = append(held, "shutdownMutex")
+	}
+	for name, db := range o.databases {
+		if db.modelMutex.TryLock() {
+			db.modelMutex.Unlock()
+		} else {
+			held = append(held, name+".modelMutex")
+		}
+		if db.cacheMutex.TryLock() {
+			db.cacheMutex.Unlock()
+		} else {
+			held = append(held, name+".cacheMutex")
+		}
+		if db.monitorsMutex.TryLock() {
+			db.monitorsMutex.Unlock()
+		} else {
+			held = append(held, name+".monitorsMutex")
+		}
+	}
+	return held
+}
+
+// VerifDeferState reports the deferUpdates flag and queue length of the primary database.
+func VerifDeferState(c Client) (bool, int) {
+	o := c.(*ovsdbClient)
+	db := o.primaryDB()
+	db.cacheMutex.RLock()
+	defer db.cacheMutex.RUnlock()
+	return db.deferUpdates, len(db.deferredUpdates)
+}
